@@ -44,18 +44,20 @@ type KnownObs struct {
 }
 
 var (
-	stMu       sync.Mutex
-	stEvals    int
-	stNT       int
-	stDistinct = map[uint64]struct{}{}
-	stClasses  = map[string]int{}
-	stSamples  []json.RawMessage
-	stSampleK  = map[string]int{}
-	stKnown    []KnownObs
-	stExcluded = map[string]int{}
-	stExh      []string
-	stTests    = map[string]int{}
-	stNotes    []string
+	stMu          sync.Mutex
+	stEvals       int
+	stNT          int
+	stDistinct    = map[uint64]struct{}{}
+	stClasses     = map[string]int{}
+	stSamples     []json.RawMessage
+	stSampleK     = map[string]int{}
+	stKnown       []KnownObs
+	stExcluded    = map[string]int{}
+	stExh         []string
+	stTests       = map[string]int{}
+	stNotes       []string
+	stAuto        = map[string]int{}
+	stAutoSamples []json.RawMessage
 )
 
 const maxSamplesPerKind = 3
@@ -80,6 +82,13 @@ func Case(test, desc string, nt bool, classes ...string) {
 	}
 	for _, c := range classes {
 		stClasses[test+":"+c]++
+	}
+	// fallback sample: the first few non-trivial cases of every test are written out with
+	// their descriptor and classes (tests add richer samples with Sample)
+	if nt && stAuto[test] < 2 && len(stAutoSamples) < 24 {
+		stAuto[test]++
+		b, _ := json.Marshal(map[string]any{"kind": "case:" + test, "case": map[string]any{"descriptor": desc, "classes": classes}})
+		stAutoSamples = append(stAutoSamples, b)
 	}
 }
 
@@ -140,8 +149,12 @@ func flush() {
 	}
 	stMu.Lock()
 	defer stMu.Unlock()
+	samples := stSamples
+	if len(samples) < 6 {
+		samples = append(append([]json.RawMessage{}, samples...), stAutoSamples...)
+	}
 	d := statsDoc{
-		Evaluations: stEvals, NT: stNT, Classes: stClasses, Samples: stSamples,
+		Evaluations: stEvals, NT: stNT, Classes: stClasses, Samples: samples,
 		Known: stKnown, Excluded: stExcluded, Exhaustive: stExh, Tests: stTests, Notes: stNotes,
 	}
 	for k := range stDistinct {
